@@ -226,3 +226,189 @@ func runDeviceChains(c *Ctx) {
 		d.close()
 	}
 }
+
+
+// The same chains with raw sockets at both ends and the pipe ids observed on every socket: the header the raw server
+// receives must be the one Model/Device.lean computes from those ids (own pipe, then one word per device, most recent
+// first, then the request id), the payload unchanged; the reply sent with that header must come back to the client
+// that asked — two raw clients share the front of the chain — as (request id, reply payload).  Hop limits vary per
+// device.  Lines `dev.path` / `dev.back`.
+func runDevicePaths(c *Ctx) {
+	type pipeLog struct {
+		mu  sync.Mutex
+		ids []uint32
+	}
+	hook := func(s mangos.Socket) *pipeLog {
+		l := &pipeLog{}
+		s.SetPipeEventHook(func(ev mangos.PipeEvent, p mangos.Pipe) {
+			if ev == mangos.PipeEventAttached {
+				l.mu.Lock()
+				l.ids = append(l.ids, p.ID())
+				l.mu.Unlock()
+			}
+		})
+		return l
+	}
+	rounds := 8
+	if c.Thorough() {
+		rounds = 48
+	}
+	for r := 0; r < rounds; r++ {
+		kind := []string{"reqrep", "survey"}[r%2]
+		n := c.R.Intn(4)
+		devSeq++
+		addr := func(i int) string { return fmt.Sprintf("inproc://verif-c09path-%d-%d", devSeq, i) }
+		var all []mangos.Socket
+		mk := func(front bool) mangos.Socket {
+			var s mangos.Socket
+			switch {
+			case kind == "reqrep" && front:
+				s, _ = xrep.NewSocket()
+			case kind == "reqrep":
+				s, _ = xreq.NewSocket()
+			case front:
+				s, _ = xrespondent.NewSocket()
+			default:
+				s, _ = xsurveyor.NewSocket()
+			}
+			all = append(all, s)
+			return s
+		}
+		ttls := make([]int, n+1) // ttls[0]: server; ttls[i]: device i (device n is nearest the clients)
+		for i := range ttls {
+			ttls[i] = 8
+			if r%4 >= 2 {
+				ttls[i] = c.R.Pick(1, 2, 3, 4, 8)
+			}
+		}
+		server := mk(true)
+		_ = server.SetOption(mangos.OptionTTL, ttls[0])
+		_ = server.SetOption(mangos.OptionRecvDeadline, 250*time.Millisecond)
+		logs := []*pipeLog{hook(server)}
+		ok := server.Listen(addr(0)) == nil
+		for i := 1; i <= n && ok; i++ {
+			f, b := mk(true), mk(false)
+			_ = f.SetOption(mangos.OptionTTL, ttls[i])
+			logs = append(logs, hook(f))
+			ok = f.Listen(addr(i)) == nil && b.Dial(addr(i-1)) == nil && mangos.Device(f, b) == nil
+			time.Sleep(15 * time.Millisecond)
+		}
+		if !ok {
+			c.Violate("device path scenario: cannot set up the chain", nil)
+			for _, s := range all {
+				_ = s.Close()
+			}
+			continue
+		}
+		clients := []mangos.Socket{mk(false), mk(false)}
+		for _, cl := range clients {
+			_ = cl.SetOption(mangos.OptionRecvDeadline, 250*time.Millisecond)
+			_ = cl.Dial(addr(n))
+			time.Sleep(15 * time.Millisecond) // attach order = client order
+		}
+		ids := func(l *pipeLog) []uint32 {
+			l.mu.Lock()
+			defer l.mu.Unlock()
+			return append([]uint32{}, l.ids...)
+		}
+		frontIDs := ids(logs[n])
+		wantFront := 2
+		if n > 0 {
+			// the server's socket has one pipe (from device 1); the front of the chain has the two clients
+			if len(ids(logs[0])) != 1 {
+				wantFront = -1
+			}
+		}
+		if len(frontIDs) != 2 || wantFront < 0 {
+			c.Violate(fmt.Sprintf("device path scenario: expected two client connections at the front, saw %v", frontIDs), nil)
+			for _, s := range all {
+				_ = s.Close()
+			}
+			continue
+		}
+		for ci, cl := range clients {
+			// the chain as this client's request sees it, client side first
+			var chain []string
+			for i := n; i >= 1; i-- {
+				var p uint32
+				if i == n {
+					p = frontIDs[ci]
+				} else {
+					p = ids(logs[i])[0]
+				}
+				chain = append(chain, fmt.Sprintf("%d:%d", ttls[i], p))
+			}
+			var sp uint32
+			if n == 0 {
+				sp = frontIDs[ci]
+			} else {
+				sp = ids(logs[0])[0]
+			}
+			chainS := "-"
+			if len(chain) > 0 {
+				chainS = joinComma(chain)
+			}
+			id := []byte{0x80 | byte(c.R.Intn(128)), byte(c.R.Intn(256)), byte(c.R.Intn(256)), byte(ci + 1)}
+			payload := append([]byte(fmt.Sprintf("p%d-%d-", r, ci)), patterned(uint64(r*10+ci), c.R.Pick(0, 1, 7, 64))...)
+			m := mangos.NewMessage(len(payload))
+			m.Header = append(m.Header, id...)
+			m.Body = append(m.Body, payload...)
+			if err := cl.SendMsg(m); err != nil {
+				c.Violate(fmt.Sprintf("device path scenario: raw client Send failed: %v", err), nil)
+				continue
+			}
+			obs := "drop"
+			var hdr []byte
+			got, err := server.RecvMsg()
+			if err == nil {
+				hdr = append([]byte{}, got.Header...)
+				obs = vp.Hex(got.Header) + " " + vp.Hex(got.Body)
+				got.Free()
+			}
+			class := fmt.Sprintf("device path %s n=%d through=%v", kind, n, err == nil)
+			c.Class(class, true)
+			c.T.Line(class, fmt.Sprintf("dev.path %s %d:%d %s %s %s", kind, ttls[0], sp, chainS, vp.Hex(id), vp.Hex(payload)), obs)
+			if err != nil {
+				continue
+			}
+			reply := append([]byte("R:"), payload...)
+			rm := mangos.NewMessage(len(reply))
+			rm.Header = append(rm.Header, hdr...)
+			rm.Body = append(rm.Body, reply...)
+			if err := server.SendMsg(rm); err != nil {
+				c.Violate(fmt.Sprintf("device path scenario: raw server Send failed: %v", err), nil)
+				continue
+			}
+			back := "drop"
+			if bm, err := cl.RecvMsg(); err == nil {
+				back = vp.Hex(bm.Header) + " " + vp.Hex(bm.Body)
+				bm.Free()
+			}
+			// the other client must not have been handed anything
+			other := clients[1-ci]
+			_ = other.SetOption(mangos.OptionRecvDeadline, 30*time.Millisecond)
+			if om, err := other.RecvMsg(); err == nil {
+				c.Violate(fmt.Sprintf("device chain (%s, %d devices): the reply to client %d's request was delivered to the other client (%s/%s)", kind, n, ci, vp.Hex(om.Header), vp.Hex(om.Body)),
+					map[string]interface{}{"kind": kind, "devices": n, "request_id": vp.Hex(id)})
+				om.Free()
+			}
+			_ = other.SetOption(mangos.OptionRecvDeadline, 250*time.Millisecond)
+			c.Class(fmt.Sprintf("device back %s n=%d returned=%v", kind, n, back != "drop"), true)
+			c.T.Line("device back", fmt.Sprintf("dev.back %d %s %s", n, vp.Hex(hdr), vp.Hex(reply)), back)
+		}
+		for _, s := range all {
+			_ = s.Close()
+		}
+	}
+}
+
+func joinComma(xs []string) string {
+	out := ""
+	for i, x := range xs {
+		if i > 0 {
+			out += ","
+		}
+		out += x
+	}
+	return out
+}
